@@ -30,9 +30,21 @@ package network
 //@   ensures old(c.fatal) != nil ==> c.fatal == old(c.fatal)
 //@   ensures old(c.fatal) == nil ==> c.fatal == err
 
+// Wake-up discipline (the mechanism behind "a receive does not sleep through a change it is waiting for"): wake(b)
+// counts the wake-up tokens offered on mailbox b. signal() offers one (ASSUMED: its body is a non-blocking channel
+// send, outside the verifier's subset). A deposit that changes what a waiting receive can observe (a new payload, or
+// the poison latched by a conflicting retransmission) must offer a token AFTER the change.
+//@ ghostfield wake Int
+//@ func (*mailbox).signal
+//@   assumed
+//@   modifies wake(b)
+//@   ensures wake(b) == old(wake(b)) + 1
+
 //@ func (*routerCore).deposit
 //@   property C11, C04
 //@   let cid = message.CorrelationID
+//@   ensures old(hasPayload(c, cid, from)) && !bytesEq(old(c.boxes[cid].payloads[from]), message.Payload) ==> wake(c.boxes[cid]) > old(wake(c.boxes[cid]))
+//@   ensures !old(hasPayload(c, cid, from)) && old(c.buffered) < maxReceiveBufferSize ==> forall w Int :: old(has(c.boxes, cid)) && w == old(wake(c.boxes[cid])) ==> wake(c.boxes[cid]) > w
 //@   requires boxesWF(c)
 //@   ensures boxesWF(c)
 // (1) identical retransmission: absorbed, nothing changes
